@@ -1571,29 +1571,18 @@ pub fn wrap_claim<S: Strat>(fill: bool) {
     epilogue_p(vec![c], fil, vec![], false, "C03");
 }
 
-/// Thread churn against the helping protocol: T{fallback load, exit} || W{store} step by step,
-/// S{starts inside the race, first use, fallback load} and W2{store} as one complete call placed
-/// anywhere. If S can claim T's node while W is still inside it, W's stale help (prepared for
-/// T's transaction with the same generation number) lands in S's transaction.
+/// Thread churn against the helping protocol: T{fallback load, exit} || W{store #11} ||
+/// S{starts inside the race, first use of the crate: store #21, load, load}. If S can claim T's
+/// node while W is still inside it, the help W prepared for T's transaction (value #11, same
+/// generation number as S's second transaction) lands in S's load after S's own store of #21.
 pub fn churn_help<S: Strat>(fill: bool) {
     let c = Cont::<S>::new(0, V::new(1));
     let fil = filler::<S>();
-    let w2 = {
-        let (c, fil) = (c.clone(), fil.clone());
-        rt::spawn(move || {
-            rt::atomic_thread();
-            let h = prologue(&fil, false);
-            rt::quiet(|| rt::barrier(4));
-            store(&c, V::new(21));
-            rt::call_boundary();
-            release(h);
-        })
-    };
     let w = {
         let (c, fil) = (c.clone(), fil.clone());
         rt::spawn(move || {
             let h = prologue(&fil, false);
-            rt::quiet(|| rt::barrier(4));
+            rt::quiet(|| rt::barrier(3));
             store(&c, V::new(11));
             release(h);
         })
@@ -1601,13 +1590,16 @@ pub fn churn_help<S: Strat>(fill: bool) {
     let s = {
         let (c, fil) = (c.clone(), fil.clone());
         rt::spawn(move || {
-            rt::quiet(|| rt::barrier(4));
+            rt::quiet(|| rt::barrier(3));
             // no prologue: Node::get happens here, inside the race
+            store(&c, V::new(21));
             let mut held = Vec::new();
             if fill {
-                for _ in 0..SLOTS {
-                    held.push(fil.sw.load());
-                }
+                rt::quiet(|| {
+                    for _ in 0..SLOTS {
+                        held.push(fil.sw.load());
+                    }
+                });
             }
             // two loads: the second one reuses the generation number the exited thread used last
             for _ in 0..2 {
@@ -1623,7 +1615,7 @@ pub fn churn_help<S: Strat>(fill: bool) {
         let (c, fil) = (c.clone(), fil.clone());
         rt::spawn(move || {
             let h = prologue(&fil, fill);
-            rt::quiet(|| rt::barrier(4));
+            rt::quiet(|| rt::barrier(3));
             let g = load(&c);
             let l = g.peek_label();
             use_value(&g, l, "guard of the exiting thread");
@@ -1633,7 +1625,6 @@ pub fn churn_help<S: Strat>(fill: bool) {
         })
     };
     rt::join_all();
-    w2.join();
     w.join();
     s.join();
     t.join();
